@@ -16,9 +16,11 @@ import (
 	"github.com/oasisprotocol/oasis-core/go/common/node"
 	consensus "github.com/oasisprotocol/oasis-core/go/consensus/api"
 	cmt "github.com/oasisprotocol/oasis-core/go/consensus/cometbft/api"
+	churpState "github.com/oasisprotocol/oasis-core/go/consensus/cometbft/apps/keymanager/churp/state"
 	registryState "github.com/oasisprotocol/oasis-core/go/consensus/cometbft/apps/registry/state"
 	schedulerState "github.com/oasisprotocol/oasis-core/go/consensus/cometbft/apps/scheduler/state"
 	tmcrypto "github.com/oasisprotocol/oasis-core/go/consensus/cometbft/crypto"
+	"github.com/oasisprotocol/oasis-core/go/keymanager/churp"
 	registry "github.com/oasisprotocol/oasis-core/go/registry/api"
 	scheduler "github.com/oasisprotocol/oasis-core/go/scheduler/api"
 	staking "github.com/oasisprotocol/oasis-core/go/staking/api"
@@ -426,6 +428,8 @@ type RegistryMonitor struct {
 	// Stats
 	KeySwaps, Expired, Dereg int
 	NodeUpdates              int
+	// ChurpClaims is the largest number of CHURP stake claims implied at a block boundary (key manager support).
+	ChurpClaims int
 }
 
 func subKeys(n *node.Node) map[string]signature.PublicKey {
@@ -542,8 +546,40 @@ func (m *RegistryMonitor) OnBlock(h *History, b *Block, txs []*GenTx, ref *Block
 			addClaim(*a, registry.StakeClaimForRuntime(rt.ID))
 		}
 	}
+	// key manager support: every stored CHURP instance implies one claim on the account of its key
+	// manager runtime's owner (the reference rule is churp.AddStakeClaims).
+	churps, err := churpState.NewImmutableState(st).AllStatuses(ctx)
+	if err != nil {
+		viol("state-unreadable/churp-statuses", err.Error(), nil)
+		return
+	}
+	churpClaims := map[staking.StakeClaim]bool{}
+	for _, cs := range churps {
+		var owner *registry.Runtime
+		for _, rt := range rts {
+			if rt.ID == cs.RuntimeID {
+				owner = rt
+			}
+		}
+		if owner == nil {
+			viol("churp-instance-without-runtime", fmt.Sprintf("CHURP instance %d is stored for runtime %s, which is not registered", cs.ID, cs.RuntimeID), nil)
+			continue
+		}
+		if a, ok := owner.StakingAddress(); ok && a != nil {
+			c := churp.StakeClaim(cs.RuntimeID, cs.ID)
+			addClaim(*a, c)
+			churpClaims[c] = true
+		}
+	}
+	m.ChurpClaims = max(m.ChurpClaims, len(churpClaims))
 	snap := ParseStake(Dump(ctx, st))
 	for _, a := range snap.SortedAccounts() {
+		// A CHURP claim is recorded with the global CHURP threshold.
+		for c, ths := range snap.Accounts[a].Escrow.StakeAccumulator.Claims {
+			if churpClaims[c] && !bytes.Equal(cbor.Marshal(ths), cbor.Marshal(churp.StakeThresholds())) {
+				viol("churp-stake-claim-with-other-thresholds", fmt.Sprintf("account %s records claim %q with thresholds %v, a CHURP instance implies %v", a, c, ths, churp.StakeThresholds()), nil)
+			}
+		}
 		have := map[staking.StakeClaim]bool{}
 		for c := range snap.Accounts[a].Escrow.StakeAccumulator.Claims {
 			have[c] = true
